@@ -413,13 +413,63 @@ Fixpoint eq_press (a b : list (option (verdict * Z))) : bool :=
 (* the code under test is HEAD *)
 Definition code_variant : variant := Atomic.
 
-(* (actions, total Counts() of all constructed queues after each action,
-    per request: key (None = remedy without config), id, action returned by
+(* Compact case format: the remedy configurations used by the case are listed
+   once ([tbl]: queue key and per-call parameters of each), actions and results
+   refer to them by position.
+
+   (tbl, actions, total Counts() of all constructed queues after each action,
+    per request: remedy (None = remedy without config), id, action returned by
     OnRequest and the instant of the return (None = still blocked)) *)
-Definition case_plugin := (list paction * list (option Z) * list pres)%type.
+Inductive cact :=
+| CLookup (rem : nat) (rid now : Z)
+| CEnq (rem : nat) (rid : Z) (hdrs : list (bytes * bytes)) (t now : Z)
+| CR (rem : nat) (rid : Z) (a : ract) (now : Z)
+| CTick (rem : nat) (h : nat) (now : Z)
+| CNoConfig (rid now : Z).
+
+Definition expand (tbl : list (qkey * par)) (a : cact) : option paction :=
+  match a with
+  | CLookup rem rid now =>
+      match nth_error tbl rem with Some (k, _) => Some (PK k (KLookup rid now)) | None => None end
+  | CEnq rem rid hdrs t now =>
+      match nth_error tbl rem with Some (k, p) => Some (PK k (KEnq rid p hdrs t now)) | None => None end
+  | CR rem rid ra now =>
+      match nth_error tbl rem with Some (k, _) => Some (PK k (KR rid ra now)) | None => None end
+  | CTick rem h now =>
+      match nth_error tbl rem with Some (k, _) => Some (PK k (KTick h now)) | None => None end
+  | CNoConfig rid now => Some (PNoConfig rid now)
+  end.
+
+(* None = some action names a remedy that is not in the table *)
+Fixpoint expand_all (tbl : list (qkey * par)) (l : list cact) : option (list paction) :=
+  match l with
+  | [] => Some []
+  | a :: t =>
+      match expand tbl a, expand_all tbl t with
+      | Some x, Some r => Some (x :: r)
+      | _, _ => None
+      end
+  end.
+
+Definition cres := (option nat * Z * option (verdict * Z))%type.
+
+Definition case_plugin :=
+  (list (qkey * par) * list cact * list (option Z) * list cres)%type.
 
 Definition run_plugin (k : case_plugin) : option (list Z * list (option (verdict * Z))) :=
-  let '(acts, counts, results) := k in
-  let '(cs, sf) := prun_obs code_variant pinit acts in
-  let rs := map (fun r : pres => pverdict sf (fst (fst r)) (snd (fst r))) results in
-  if eq_zs cs counts && eq_press rs (map snd results) then None else Some (cs, rs).
+  let '(tbl, cacts, counts, results) := k in
+  match expand_all tbl cacts with
+  | None => Some ([-2], [])
+  | Some acts =>
+      let '(cs, sf) := prun_obs code_variant pinit acts in
+      let rs := map (fun r : cres =>
+                       match fst (fst r) with
+                       | None => pverdict sf None (snd (fst r))
+                       | Some rem =>
+                           match nth_error tbl rem with
+                           | Some (key, _) => pverdict sf (Some key) (snd (fst r))
+                           | None => Some (VOther, -2)
+                           end
+                       end) results in
+      if eq_zs cs counts && eq_press rs (map snd results) then None else Some (cs, rs)
+  end.
